@@ -111,6 +111,46 @@ for _M in SPACES:
             assumptions=['M/2 in `attempt_counter > M / 2` is a float in CPython; treated as an exact real (M < 2^53)'])(_alloc(_M))
 
 
+def _alloc_unrolled(Mx):
+    """No loop contract: the loop is unrolled completely, which is a complete proof for this (reduced) id space and does
+    not depend on the shape of the loop - it decides the property also after the allocator has been restructured."""
+    def run(E):
+        sc, cur0, table = mk_state(E, Mx)
+        has0 = table.has
+        p = I(cur0) % 2
+        mod = Mx + 1
+        E.unroll_limit = Mx + 4
+        ids = [x for x in range(1, Mx + 1)]
+        try:
+            r = E.call(E.getattr(sc, 'allocate_stream'), [])
+        except PyExc as e:
+            E.cover('raises')
+            E.prove('unrolled:raises_only[RSocketStreamAllocationFailure]',
+                    e.value.cls.issubclass(E.lookup('rsocket/exceptions.py::RSocketStreamAllocationFailure')))
+            E.prove('unrolled:fails_only_if_full',
+                    z3.And([z3.Implies(p == x % 2, z3.Select(has0, z3.IntVal(x))) for x in ids]))
+            E.prove('unrolled:raise_leaves_table', sc.attrs['_streams'].has.eq(has0))
+            return
+        E.cover('returns')
+        rr = I(r)
+        E.prove('unrolled:never_zero_right_parity_in_range', z3.And(rr != 0, rr % 2 == p, rr >= 1, rr <= Mx))
+        E.prove('unrolled:not_active', z3.Not(z3.Select(has0, rr)))
+        E.prove('unrolled:current_is_result', I(sc.attrs['_current_stream_id']) == rr)
+        E.prove('unrolled:table_unchanged', sc.attrs['_streams'].has.eq(has0))
+        # first available id in cyclic +2 order after cur0
+        steps = [(I(cur0) + 2 * i) % mod for i in range(1, mod // 2 + 1)]
+        first = z3.Or([z3.And(rr == steps[j], z3.Not(unavailable(has0, steps[j])),
+                              *[unavailable(has0, steps[i]) for i in range(j)]) for j in range(len(steps))])
+        E.prove('unrolled:first_free_in_cyclic_order', first)
+    return run
+
+
+for _M in [3, 7, 15]:
+    harness('c13.allocate_stream.unrolled[M=%#x]' % _M, ['C13'], functions=[ALLOC, SC + '._increment_stream_id'],
+            replay='c13_allocate', desc='complete unrolling on the reduced id space %#x (no loop contract needed)' % _M,
+            max_paths=5000)(_alloc_unrolled(_M))
+
+
 @harness('c13.init', ['C13'], functions=[SC + '.__init__', ALLOC])
 def init(E):
     first = E.input('first_stream_id', E.fresh_int('first', 1, 2))
